@@ -36,7 +36,11 @@ func genCase(t *rapid.T) c05Case {
 		t.Fatalf("generated layout rejected: %v", err)
 	}
 	c := c05Case{Layout: l}
-	c.Data = g.GenData(30)
+	rows := 30
+	if pbt.Tier() == "thorough" {
+		rows = 120
+	}
+	c.Data = g.GenData(rows)
 	switch k := rapid.IntRange(0, 9).Draw(t, "stmt_kind"); {
 	case k < 5:
 		c.SQL, _ = g.Update()
@@ -54,23 +58,29 @@ const (
 	fRouteNotBtw = "C05-F2" // inherited C01-F2: NOT BETWEEN with descending bounds drops tables
 )
 
-// assignsKey reports whether the statement assigns the sharding column of t.
-func assignsKey(st ast.StmtNode) bool {
-	switch s := st.(type) {
-	case *ast.UpdateStmt:
-		for _, a := range s.List {
-			if a.Column.Name.L == shardfix.Key {
-				return true
+// assignsKey reports whether the statement assigns the sharding column of t,
+// and whether every such assignment is the no-op "k = k" (which does not give
+// the column a new value, so the property does not demand its rejection).
+func assignsKey(st ast.StmtNode) (touch, selfOnly bool) {
+	selfOnly = true
+	visit := func(list []*ast.Assignment) {
+		for _, a := range list {
+			if a.Column.Name.L != shardfix.Key {
+				continue
 			}
-		}
-	case *ast.InsertStmt:
-		for _, a := range s.OnDuplicate {
-			if a.Column.Name.L == shardfix.Key {
-				return true
+			touch = true
+			if cn, ok := a.Expr.(*ast.ColumnNameExpr); !ok || cn.Name.Name.L != shardfix.Key {
+				selfOnly = false
 			}
 		}
 	}
-	return false
+	switch s := st.(type) {
+	case *ast.UpdateStmt:
+		visit(s.List)
+	case *ast.InsertStmt:
+		visit(s.OnDuplicate)
+	}
+	return touch, touch && selfOnly
 }
 
 func stmtKind(st ast.StmtNode) string {
@@ -96,7 +106,8 @@ type evaluation struct {
 	class     string // "rows", "moved", "affected", "key-assignment", "error-after-change"
 	w         *shardsim.World
 	st        ast.StmtNode
-	touchKey  bool
+	touchKey  bool // assigns a new value to the sharding column
+	selfKey   bool // only assigns k = k
 	changed   int // rows the reference statement changed or removed or added
 	unchanged int
 	tables    int // physical tables on which Gaea's statements changed rows
@@ -149,7 +160,9 @@ func evaluate(c c05Case) (ev evaluation) {
 		return
 	}
 	ev.st = st
-	ev.touchKey = assignsKey(st)
+	touch, selfOnly := assignsKey(st)
+	ev.touchKey = touch && !selfOnly
+	ev.selfKey = selfOnly
 	before := map[int]map[string]int{}
 	for idx, rows := range w.ShardRows() {
 		before[idx] = multiset(rows)
@@ -341,6 +354,9 @@ func checkCase(c c05Case) (o pbt.Outcome) {
 	o.Labels = append(o.Labels, "rule_"+c.Layout.Kind, "stmt_"+kind)
 	if ev.touchKey {
 		o.Labels = append(o.Labels, "assigns_key", "assigns_key_"+kind)
+	}
+	if ev.selfKey {
+		o.Labels = append(o.Labels, "assigns_key_to_itself")
 	}
 	if ev.rejected != "" {
 		o.Labels = append(o.Labels, "rejected")
